@@ -112,7 +112,14 @@ def decoder_guards(ctx, L):
                 if g is None or kind != 'early-exit:false':
                     continue
                 gt = nows(g.text)
-                if gt == 'sizeof(%s)' % width:
+                w_ = enclosing(c, 'WhileStmt')
+                in_loop = False
+                p_ = cond.parent
+                while p_ is not None:
+                    if p_ is w_:
+                        in_loop = True
+                    p_ = p_.parent
+                if gt == 'sizeof(%s)' % width and (w_ is None or in_loop):
                     ok = True
                 m = re.match(r'^(\w+)\*sizeof\((.+)\)$', gt) or re.match(r'^sizeof\((.+)\)\*(\w+)$', gt)
                 if m and width in m.groups() and enclosing(c, 'WhileStmt') is not None:
@@ -190,9 +197,15 @@ def covered(amount, stmt, guards, pos, end, body):
         if kind != 'early-exit:false':
             continue
         gt = nows(g.text)
-        if gt == at:
-            return True, 'exact'
         w = enclosing(stmt, 'WhileStmt')
+        inside = False
+        p_ = cond.parent
+        while p_ is not None:
+            if p_ is w:
+                inside = True
+            p_ = p_.parent
+        if gt == at and (w is None or inside):
+            return True, 'exact'            # a per-iteration guard, or no loop at all
         if w is not None:
             cl = counted_loop(w)
             if cl and gt in ('%s*%s' % (cl[0], at), '%s*%s' % (at, cl[0])):
